@@ -34,7 +34,7 @@ class TlcResult(object):
         self.depth = int(m.group(1)) if m else 0
         self.invariant_violated = re.findall(r'Error: Invariant (\S+) is violated', out)
         self.property_violated = re.findall(r'Error: (?:Action|Temporal) propert(?:y|ies) (\S*)', out)
-        self.temporal_violated = 'Temporal properties were violated' in out
+        self.temporal_violated = bool(re.search(r'Temporal propert(y|ies) .*violated', out))
         self.deadlock = 'Deadlock reached' in out
         self.finished = 'Model checking completed' in out or 'Finished in' in out
         self.errors = [l for l in out.splitlines() if l.startswith('Error:')]
